@@ -10,9 +10,9 @@ CHECKS = {
  "C01": dict(tech="static analysis: sequence-confinement dataflow (SEQ) + resolved-value dataflow for reflect accessors (NF) on go/ssa + write-target provenance (W) restricted to the path machinery",
    text="Structural necessary conditions of the path law, decided for every program and input: no internal *sequence can be nested into or escape as a value, and every reflect accessor in the path machinery gets a resolved value. Behavioural content (order, flattening, singleton collapse) is not decided; level 'other' because this is a sound effect/typestate analysis of named clauses, not a behavioural proof. A purity clause (write-target provenance W restricted to the property's functions) excludes caches and other state between calls.",
    ref="DESIGN.md §3 SEQ, NF; §4 C01 (W)"),
- "C02": dict(tech="static analysis: resolved-value dataflow for reflect accessors (NF) on go/ssa + write-target provenance (W) restricted to the predicate machinery",
-   text="The NF clause of the predicate machinery for all programs/inputs: filter results and array items are resolved before Len/Index. Index arithmetic and truth casting are value-level and not decided. A purity clause (write-target provenance W restricted to the property's functions) excludes caches and other state between calls.",
-   ref="DESIGN.md §3 NF; §4 C02 (W)"),
+ "C02": dict(tech="static analysis: resolved-value dataflow for reflect accessors (NF) on go/ssa + value-flow rule for the filtered list in evalPredicate (LISTFLOW) + write-target provenance (W) restricted to the predicate machinery",
+   text="The NF clause of the predicate machinery for all programs/inputs: filter results and array items are resolved before Len/Index. LISTFLOW: each filter is applied to the step's value or the previous filter's survivor list, and only those are returned (successive predicates see the survivors). Index arithmetic and truth casting are value-level and not decided. A purity clause (write-target provenance W restricted to the property's functions) excludes caches and other state between calls.",
+   ref="DESIGN.md §3 NF; §4 C02 (LISTFLOW, W)"),
  "C03": dict(tech="static analysis: finiteness bit-set dataflow with dominance guards (FIN), dominating-guard check (GUARD), CFG exclusivity (LAZY), enum/registration exhaustiveness (TAB), operator-table extraction from the SSA of the operator evaluators compared with the operators' meaning (OPTAB), W restricted to the operator evaluators",
    text="Four clauses of the operator contract visible in the code on every path: arithmetic results are finiteness-checked before becoming values, the range size limit (10,000,000) dominates the allocation, ?: evaluates exactly one branch, operator enums are dispatched exhaustively. The operator x kind x kind result table is not decided. OPTAB: every operator's case computes the operation of the property with the operands in order (+ - * / % = != < <= > >= in and or &), lt is strict, no arithmetic outside the cases. A purity clause (write-target provenance W restricted to the property's functions) excludes caches and other state between calls.",
    ref="DESIGN.md §3 FIN, GUARD, TAB; §4 C03, OPTAB"),
